@@ -98,9 +98,13 @@ fn main() {
     let n_schemas = if thorough { 1500 } else { 170 };
     let mut samples: Vec<J> = vec![];
     let mut n_lists = 0u64;
-    for i in 0..n_schemas {
+    let wrapper_depth = if thorough { 3 } else { 2 };
+    for i in 0..(n_schemas + 1) {
+        let special = i == 0;
         let s = gen_schema(&mut rng, &SchemaCfg { descriptions: false, custom_directives: true });
-        let sdl = s.render();
+        // the first case is the exhaustive small-scope part: a fixed schema and one operation per
+        // (leaf kind, wrapper nesting up to `wrapper_depth` list levels), each judged under both option values
+        let sdl = if special { "scalar Date\nenum E { A B }\ninput In { x: Int, y: [In!] }\ntype Query { a: Int }\n".to_string() } else { s.render() };
         let doc = match load_schema(&sdl) { Ok(d) => d, Err(_) => { bump("schema-load-error"); continue; } };
         if !check_schema(&doc).is_empty() { bump("schema-invalid"); continue; }
         let ts = to_type_system(&doc);
@@ -110,17 +114,27 @@ fn main() {
             ("String".into(), ScalarTypeConfig::Single("string".into())), ("Int".into(), ScalarTypeConfig::Single("number".into())),
             ("Float".into(), ScalarTypeConfig::Single("number".into())), ("Boolean".into(), ScalarTypeConfig::Single("boolean".into()))];
         if rng.chance(1, 4) { let k = rng.below(scalars.len()); scalars[k].1 = scalar_cfg(&mut rng); }
-        for t in &s.types { if matches!(t.kind, Kind::Scalar) { scalars.push((t.name.clone(), scalar_cfg(&mut rng))); } }
+        if special { scalars.push(("Date".into(), ScalarTypeConfig::SendReceive(SendReceiveScalarTypeConfig { send: "Date | string".into(), receive: "string".into() }))); }
+        else { for t in &s.types { if matches!(t.kind, Kind::Scalar) { scalars.push((t.name.clone(), scalar_cfg(&mut rng))); } } }
         for (_, c) in &scalars { bump(&format!("scalar-config:{}", cfg_shape(c))); }
         let ns = if rng.chance(1, 5) { "S".to_string() } else { "Schema".to_string() };
         // operations: generated accepted documents + synthetic variable lists
         let mut op_texts: Vec<(String, &'static str)> = vec![];
-        for _ in 0..3 {
+        if special {
+            let mut nestings: Vec<Vec<String>> = vec![vec!["@".into(), "@!".into()]];
+            for d in 0..wrapper_depth { let next: Vec<String> = nestings[d].iter().flat_map(|x| vec![format!("[{x}]"), format!("[{x}]!")]).collect(); nestings.push(next); }
+            for leaf in ["Int", "Date", "E", "In"] {
+                for (k, n) in nestings.iter().flatten().enumerate() {
+                    for rep in 0..2 { op_texts.push((format!("query W{leaf}{k}x{rep}($v: {}) {{ __typename }}\n", n.replace('@', leaf)), "exhaustive-wrappers")); }
+                }
+            }
+        }
+        for _ in 0..(if special { 0 } else { 3 }) {
             let fr = rng.chance(1, 2);
             let d = gen_doc(&mut rng, &s, &DocCfg { fragments: fr, ..DocCfg::default() });
             op_texts.push((d.render(), "generated"));
         }
-        for k in 0..2 {
+        for k in 0..(if special { 0 } else { 2 }) {
             let n = rng.range(1, 5);
             let vars: Vec<String> = (0..n).map(|j| {
                 let ty = input_type(&mut rng, &s);
@@ -139,7 +153,7 @@ fn main() {
                 let ExecutableDefinition::OperationDefinition(op) = def else { continue };
                 let Some(vars) = op.variables_definition.as_ref() else { continue };
                 if vars.definitions.is_empty() { continue; }
-                let allow = rng.chance(1, 2);
+                let allow = if *origin == "exhaustive-wrappers" { text.contains("x0(") } else { rng.chance(1, 2) };
                 let frags = HashMap::new();
                 let direct_opts = OperationTypePrinterOptions { allow_undefined_as_optional_input: allow, schema_root_namespace: ns.clone(), ..Default::default() };
                 let direct = get_type_for_variable_definitions(&QueryTypePrinterContext { options: &direct_opts, schema: &ts, fragment_definitions: &frags }, vars);
